@@ -3,7 +3,7 @@
 # usage: selftest/sensitivity.sh [name-pattern]
 cd "$(dirname "$0")/.."
 pat="${1:-}"
-python3 - "$pat" <<'PY' > /tmp/verif_sens_plan.txt
+python3 - "$pat" <<'PY' > /tmp/verif_sens_plan_$$.txt
 import json, sys, glob, os
 pat = sys.argv[1]
 exp = json.load(open('selftest/mutants/EXPECTED.json'))
@@ -17,5 +17,5 @@ for meta in sorted(glob.glob('seeded/*/meta.json')):
 PY
 while read -r patch checks; do
   tools/try_mutant.sh "$patch" $checks
-done < /tmp/verif_sens_plan.txt
-rm -f /tmp/verif_sens_plan.txt
+done < /tmp/verif_sens_plan_$$.txt
+rm -f /tmp/verif_sens_plan_$$.txt
